@@ -12,7 +12,7 @@ func init() {
 	Register(&Profile{Name: "histories", Prop: "C14", Weight: 10, Quick: 60000, Thorough: 1200000, Fn: histories})
 	SetMeta("C14", &Meta{
 		Level: "exploration",
-		Rule: "seeded random walks of up to 12 (thorough: 20) steps over {damage file f in way w, restore file f, delete / restore recovery file v, Verify, Repair, Repair with double-check} on small fixed worlds (PAR1 and PAR2, 2-4 files) and on random small worlds; the disk is the only state carried between steps. A walk is non-trivial when it contains at least one Repair executed in a damaged state; distinct by the sequence of (operation kind, abstract state class). coverage.states / transitions count distinct abstract states (world id, per-file content hash or 'missing', set of recovery files present) and distinct (state, operation, next state) triples reached over the whole batch: this is sampling of the reachable state graph, not its closure.",
+		Rule:  "seeded random walks of up to 12 (thorough: 20) steps over {damage file f in way w, restore file f, delete / restore recovery file v, Verify, Repair, Repair with double-check} on small fixed worlds (PAR1 and PAR2, 2-4 files) and on random small worlds; the disk is the only state carried between steps. A walk is non-trivial when it contains at least one Repair executed in a damaged state; distinct by the sequence of (operation kind, abstract state class). coverage.states / transitions count distinct abstract states (world id, per-file content hash or 'missing', set of recovery files present) and distinct (state, operation, next state) triples reached over the whole batch: this is sampling of the reachable state graph, not its closure.",
 		Assumptions: []string{
 			"damage never removes directories and never touches the index file in this profile (a damaged index makes every operation fail, which is C13's territory)",
 			"recovery files are deleted or restored whole ('a recovery file arrives'); damaged recovery files belong to C13",
@@ -64,9 +64,14 @@ func histories(r *Run) {
 	if t.Bool(1, 2, "random-world") {
 		par1Set := t.Bool(1, 3, "par1")
 		w = GenWorld(r, GenOpts{Par1: par1Set, MaxFiles: 4, SmallOnly: true, MaxR: 4})
-		if t.Bool(1, 10, "file-at-16k") && (par1Set || w.S >= 16) {
+		if t.Bool(1, 6, "file-at-16k") && (par1Set || w.S >= 16) {
 			// one file right at the 16 KiB boundary of the file hashes
-			data := expandContent(ckRandom, t.Draw64(0, "k16-seed"), 16383+t.Draw(3, "k16-d"), 4)
+			size := 16383 + t.Draw(3, "k16-d")
+			if t.Bool(1, 2, "beyond-16k") {
+				// ... or reaching a little beyond it
+				size = 16384 + 9 + t.Draw(300, "k16-beyond")
+			}
+			data := expandContent(ckRandom, t.Draw64(0, "k16-seed"), size, 4)
 			if !par1Set {
 				w.N += (len(data)+w.S-1)/w.S - (len(w.Files[0].Data)+w.S-1)/w.S
 			}
@@ -107,13 +112,14 @@ func histories(r *Run) {
 	failedRepairSeen := false
 	recoveryRestoredAfterFail := false
 	sawDamagedRepair := false
+	staleArrived := false
 	state := w.abstractState(worldID)
 	if worldID >= 0 {
 		r.States = append(r.States, state)
 	}
 	for s := 0; s < steps; s++ {
 		t.Begin("step")
-		op := t.Pick([]int{5, 2, 2, 2, 2, 4, 2, 1, 1, 1}, "op")
+		op := t.Pick([]int{5, 2, 2, 2, 2, 4, 2, 1, 1, 1, 1}, "op")
 		name := ""
 		switch op {
 		case 0:
@@ -150,6 +156,7 @@ func histories(r *Run) {
 			// an outdated or wrongly produced recovery file of the same
 			// set turns up beside the index (valid by the format's checks)
 			name = "stale-recovery-arrives"
+			staleArrived = true
 			if w.Par1 {
 				w.hostilePar1Kind(r, "forged-volume")
 			} else if t.Bool(1, 2, "forged") {
@@ -234,6 +241,71 @@ func histories(r *Run) {
 				if cur, ok := w.Disk.Get(p); !ok || string(cur) != string(prev) {
 					r.Violate("failed-repair-worsened", "a Repair killed mid-write changed %s", p)
 				}
+			}
+			lastRepairOK = false
+		case 10:
+			// the user updates a file of a healthy set in place and runs
+			// Create again over the existing archive files: from now on the
+			// new content is what the set protects
+			name = "reprotect"
+			if !w.AllIntact() || staleArrived {
+				r.Count("reprotect-skipped")
+				break
+			}
+			var cand []int
+			for i, f := range w.Files {
+				if len(f.Data) > 0 {
+					cand = append(cand, i)
+				}
+			}
+			if len(cand) == 0 {
+				break
+			}
+			i := cand[t.Draw(len(cand), "which")]
+			d := append([]byte(nil), w.Files[i].Data...)
+			g := prng{s: t.Draw64(0, "update-seed")}
+			lo := 0
+			if len(d) > 16384+8 && t.Bool(2, 3, "beyond-16k") {
+				// same name, length and first 16 KiB: same file id and set id
+				lo = 16384
+				r.Probe("reprotect-same-setid")
+			}
+			for k := 0; k < 1+int(g.next()%8); k++ {
+				d[lo+int(g.next()%uint64(len(d)-lo))] ^= byte(1 + g.next()%255)
+			}
+			w.Files[i].Data = d
+			w.Disk.Put(w.Path(i), d)
+			old := w.Created
+			var cre2 *OpResult
+			if w.Par1 {
+				cre2 = r.Create1(w, w.Index, w.FilePaths(), nil)
+			} else {
+				cre2 = r.Create2(w, w.FilePaths(), nil, SchedSpec{})
+			}
+			r.noPanic(cre2)
+			if cre2.Err != nil {
+				r.Violate("create-failed", "Create over an existing set failed: %v", cre2.Err)
+			}
+			w.RecordRecreated(r, cre2, old)
+			r.Probe("reprotected")
+			// nothing is damaged: the freshly protected set verifies clean
+			var v *OpResult
+			if w.Par1 {
+				v = r.Verify1(w, w.Index, true, nil)
+			} else {
+				v = r.Verify2(w, w.Index, 1, nil, SchedSpec{})
+			}
+			r.noPanic(v)
+			needs := false
+			if v.HasRes {
+				if w.Par1 {
+					needs = v.Counts1.RepairNeeded() || !v.AllData
+				} else {
+					needs = v.Counts.RepairNeeded()
+				}
+			}
+			if v.Err != nil || needs {
+				r.Violate("repair-failed-within-capacity", "right after Create was run again over the set (file %q updated in place), Verify does not find it intact: err=%v", w.Files[i].Name, v.Err)
 			}
 			lastRepairOK = false
 		case 4:
